@@ -164,7 +164,8 @@ class World {
 extern World *W;  // the world the interposers talk to (one at a time)
 
 // libcoap's PRNG is fed from a tape-derived deterministic stream
-void seed_prng(uint64_t seed);
+// the first draws can be dictated (e.g. ff ff so that a new session's first message id is 0)
+void seed_prng(uint64_t seed, const std::vector<uint8_t> &prefix = {});
 
 // allocation table (only when coap_malloc_type & co are wrapped)
 struct AllocStats {
